@@ -429,6 +429,38 @@ def _restore_rules(db: DB, rep: Report, hm) -> None:
               "%s): the result is left partitioned / flattened under a name that claims the declared ranks" %
               sorted(outs))
 
+    # ---- W9: unpartition gives up early only when it has planned nothing to undo ------------
+    rep.rule("W9", "Partitioner.unpartition returns without emitting anything only when the planned list of "
+             "transformations is empty", 1)
+    up9 = db.func("teaal.trans.partitioner.Partitioner.unpartition")
+    rets9 = [n for n in walk_no_nested(up9.node) if isinstance(n, ast.Return)]
+    last9 = up9.node.body[-1]
+    n_w9 = 0
+    for r9 in rets9:
+        if r9 is last9:
+            continue
+        n_w9 += 1
+        # the tests of the enclosing ifs only (an earlier exit is its own instance)
+        encl9, c9 = [], r9
+        for p9 in paths.parents(r9, up9.node):
+            if isinstance(p9, ast.If):
+                encl9.append((p9.test, c9 in p9.body))
+            c9 = p9
+        atoms9 = [(a, p_) for t, pol in encl9 for a, p_ in paths.conjuncts(t, pol)]
+        plan_empty = [a for a, p_ in atoms9 if isinstance(a, ast.Name) and not p_]
+        other9 = [(a, p_) for a, p_ in atoms9 if not (isinstance(a, ast.Name) and not p_)]
+        asks = [norm(a)[:60] for a, _ in other9 if any(isinstance(x, ast.Call) for x in ast.walk(a))]
+        rep.check("W9", bool(plan_empty) and not other9, db.loc(r9), up9.short, "early-return",
+                  "early return under 'not %s' only" % (plan_empty[0].id if plan_empty else "?"),
+                  "Partitioner.unpartition returns before emitting anything under %s, not because the list of "
+                  "transformations to undo is empty: the swizzle of the output back into its declared rank "
+                  "order (and any merge) is skipped, and the result keeps the loop-order layout under a "
+                  "name that the next Einsum does not read" %
+                  [("" if p_ else "not ") + norm(a)[:60] for a, p_ in atoms9],
+                  decided=(bool(plan_empty) and not other9) or bool(asks))
+    if n_w9 < 1:
+        rep.undecided("W9", db.loc(up9.node), up9.short, "no early return found in Partitioner.unpartition")
+
     # ---- W4: rank-structure changes are followed by a rank-id renaming ----------------
     rep.rule("W4", "every rank-structure change in unpartition schedules setRankIds", 2)
     up = db.func("teaal.trans.partitioner.Partitioner.unpartition")
@@ -489,7 +521,7 @@ def _restore_rules(db: DB, rep: Report, hm) -> None:
 
     # ---- W6: tests on the partition suffix use the suffix, not the rank name -----------
     rep.rule("W6", "partition-suffix tests are applied to the suffix of split_rank_name", 2)
-    for f in db.all_functions(["teaal.trans."]):
+    for f in db.all_functions(["teaal.trans.", "teaal.ir."]):
         for n in walk_no_nested(f.node):
             base = None
             if isinstance(n, ast.Compare) and isinstance(n.left, ast.Subscript) and \
@@ -510,6 +542,14 @@ def _restore_rules(db: DB, rep: Report, hm) -> None:
                                 len(st.targets[0].elts) == 2 and isinstance(st.targets[0].elts[1], ast.Name) and \
                                 st.targets[0].elts[1].id == base.id:
                             ok = True
+                # an inline split: the same condition also establishes that the name without its
+                # last character is a rank of its own (<x>[:-1] in <ranks>)
+                par6 = getattr(n, "parent", None)
+                sibs = list(par6.values) if isinstance(par6, ast.BoolOp) else []
+                sibs += [t for t, _ in paths.guards(n, stop=f.node)]
+                if any(isinstance(c6, ast.Compare) and isinstance(c6.ops[0], (ast.In, ast.NotIn)) and
+                       norm(c6.left) == norm(base) + "[:-1]" for sb in sibs for c6 in ast.walk(sb)):
+                    ok = True
                 rep.check("W6", ok, db.loc(n), f.short, "suffix-test:" + norm(n),
                           "%s tests the suffix component of split_rank_name" % norm(n),
                           "%s tests the last character of %s, which is not the partition suffix returned by "
@@ -529,6 +569,9 @@ def mutants(db: DB):
     eq, hd, ie = "teaal/trans/equation.py", "teaal/trans/header.py", "teaal/ir/equation.py"
     pt = "teaal/trans/partitioner.py"
     return [
+        M("unpartition gives up when the Einsum has no partitioning (C05-u3)", pt,
+          "        # Build a list of the transformations that the tensor will go through\n        trans: List[",
+          "        if not part_ir.get_all_parts():\n            return block\n\n        # Build a list of the transformations that the tensor will go through\n        trans: List[", "W9"),
         M("swizzle elided when the rank order is unchanged", "teaal/trans/header.py",
           "        if old_name == new_name:", "        if old_name == new_name or tensor.get_ranks() == tensor.get_init_ranks():", "W8"),
         M("temporary ranks recognised by endswith on the rank name", "teaal/trans/partitioner.py",
